@@ -19,3 +19,20 @@ func (s *Store) extLiveDevice() bool {
 	v, ok := liveDevice.Load(s)
 	return ok && v.(bool)
 }
+
+// C16: a storage may HONOUR the context it is called with, as database- or
+// RPC-backed storages do: a call made with a context that is already done
+// (cancelled, past its deadline) fails with ctx.Err() instead of being served.
+// The framework must therefore keep the context of a request alive for as long
+// as it uses it. Default-preserving: unless SetHonourContext(true) was called,
+// the methods ignore the state of their context as before.
+var honourCtx sync.Map // *Store -> bool
+
+// SetHonourContext makes EVERY storage method (all of them pass through enter)
+// return ctx.Err() when its context is already done.
+func (s *Store) SetHonourContext(on bool) { honourCtx.Store(s, on) }
+
+func (s *Store) extHonourCtx() bool {
+	v, ok := honourCtx.Load(s)
+	return ok && v.(bool)
+}
